@@ -407,7 +407,13 @@ def history(ctx, d, pgpy, name, plan, protect=True, oldfmt=False, kdf=False):
             # twins derived BEFORE this addition: still public-only, no secret octets, same fingerprint
             for lbl, tw in twins:
                 check_twin(ctx, d, 'early-twin', key, tw, {'op': 'twin', 'key': name, 'stage': '+'.join(done), 'twin': lbl}, secrets, fresh=False)
-            tw = key.pubkey
+            otw = out2(lambda: key.pubkey)
+            if otw[0] != 'ok':
+                # (opaque private material is refused in its own suite; the corpus keys grown here have none)
+                ctx.case('twin', (name, '+'.join(done), 'derive'))
+                ctx.fail('twin', 'the public twin of a private key cannot be derived: %s' % (otw[1][0],), {'op': 'twin', 'key': name, 'stage': '+'.join(done), 'error': repr(otw[1])[:300]})
+                return
+            tw = otw[1]
             check_twin(ctx, d, 'twin', key, tw, {'op': 'twin', 'key': name, 'stage': '+'.join(done)}, secrets)
             if i % 3 == 0:
                 twins.append(('t%d' % (i + 1), tw))
